@@ -27,7 +27,7 @@ type link struct {
 
 func TestC14_NestingBound(t *testing.T) {
 	rec := evid.For("C14")
-	rec.SetRule("rapid: chains of 1..200 immediately completable operations, each issued from the completion callback of the previous one, over a generated mix of objects on one IO (conn read with data buffered, conn write with buffer space, FIFO read/write, regular-file read, accept with queued connections, datagram read with queued datagrams, datagram write, multicast-peer read/write); oracle: harness nesting counter (incremented on callback entry, decremented on exit) never exceeds MaxCallbackDispatch+1, every link (inline or deferred) yields the result it must have by construction (byte content at the running offset, n, accepted peer address, datagram bytes and sender), IO.Dispatched==0 whenever the stack is unwound, the chain finishes within len/32+2 PollOne calls; non-trivial = chain longer than 33 links mixing >=3 object kinds with the deferred link landing on a non-socket descriptor at least once; distinct = hash of the chain")
+	rec.SetRule("rapid: chains of 1..200 immediately completable operations, each issued from the completion callback of the previous one, over a generated mix of objects on one IO (conn read with data buffered, conn write with buffer space, FIFO read/write, regular-file read, accept with queued connections, datagram read with queued datagrams, datagram write, multicast-peer read/write; every datagram object writes to two receivers, the destination varies from link to link); oracle: harness nesting counter (incremented on callback entry, decremented on exit) never exceeds MaxCallbackDispatch+1, every link (inline or deferred) yields the result it must have by construction (byte content at the running offset, n, accepted peer address, datagram bytes and sender, written datagrams arrive at the receiver they were addressed to in order), IO.Dispatched==0 whenever the stack is unwound, the chain finishes within len/32+2 PollOne calls; non-trivial = chain longer than 33 links mixing >=3 object kinds with the deferred link landing on a non-socket descriptor at least once; distinct = hash of the chain")
 	regKnown := known.Listed("C14", "regular-file-deferred")
 	vt.Check(t, 200, func(rt *rapid.T) {
 		w := newWorld(rt)
@@ -232,12 +232,17 @@ func TestC14_NestingBound(t *testing.T) {
 				}
 			case "writeTo":
 				buf := make([]byte, 2048)
-				if !sysx.WaitReadable(o.peer, 1000) {
-					rt.Fatalf("link %d (writeTo on %s, %s): the datagram never reached the peer", i, o.name(), p.phase)
+				// each receiver gets the datagrams addressed to it, in order (destinations vary from link to link)
+				if !sysx.WaitReadable(p.dstFd, 300) {
+					other := o.peer
+					if p.dstFd == o.peer {
+						other = o.peer2
+					}
+					rt.Fatalf("link %d (writeTo on %s, %s, issued at depth %d): the datagram never reached the receiver it was addressed to (the other receiver of this object has %d unread bytes)", i, o.name(), p.phase, p.depthAt, sysx.Unread(other))
 				}
-				n, _, err := syscall.Recvfrom(o.peer, buf, 0)
+				n, _, err := syscall.Recvfrom(p.dstFd, buf, 0)
 				if err != nil || !bytes.Equal(buf[:n], p.buf) {
-					rt.Fatalf("link %d (writeTo on %s, %s): peer received %x (err %v), want %x", i, o.name(), p.phase, buf[:max(n, 0)], err, p.buf)
+					rt.Fatalf("link %d (writeTo on %s, %s, issued at depth %d): the addressed receiver got %x (err %v), want %x", i, o.name(), p.phase, p.depthAt, buf[:max(n, 0)], err, p.buf)
 				}
 			}
 		}
